@@ -408,3 +408,39 @@ class IntMapP:
 
     def copy(self):
         return IntMapP(self.keys, self.vals)
+
+
+SEQ = z3.SeqSort(z3.IntSort())
+
+
+class MapSeqP:
+    """dict[str, list[fn]] (the compiled rule chains): key set + array atom -> Seq(Int)"""
+
+    __slots__ = ("keys", "vals")
+
+    def __init__(self, keys, vals):
+        self.keys, self.vals = keys, vals
+
+    def copy(self):
+        return MapSeqP(self.keys, self.vals)
+
+
+class SetP:
+    """set of atoms"""
+
+    __slots__ = ("mem",)
+
+    def __init__(self, mem):
+        self.mem = mem
+
+    def copy(self):
+        return SetP(self.mem)
+
+
+class VMapSlot(V):
+    """`d[k]` of a dict of lists: a reference to the list stored under k (so .append mutates the dict's value)"""
+
+    __slots__ = ("ref", "key")
+
+    def __init__(self, ref, key):
+        self.ref, self.key = ref, key
